@@ -17,3 +17,8 @@ package common
 //@   ensures[bytes] forall(k, 0, 32, seq(result)[k] == ite(k < bigLen(absInt(bigval(n))), bigBytes(absInt(bigval(n)))[bigLen(absInt(bigval(n))) - 1 - k], 0))
 //@   loop 0 invariant 0 <= i && i <= len(beBytes) && i <= 32 && len(leBytes) == 32 && off(leBytes) == 0
 //@   loop 0 invariant forall(k, 0, 32, seq(leBytes)[k] == ite(k < i, seq(beBytes)[len(beBytes) - 1 - k], 0))
+
+//@ func Uint32ToBytes
+//@   props C03 C10
+//@   definitional
+//@   ensures[be32] len(result) == 4 && off(result) == 0 && fresh(ref(result)) && bytesOf(seq(result), 4) == beNB(num, 4)
